@@ -484,10 +484,10 @@ fn main() {
     if std::env::var("VERIF_STAGE").as_deref() == Ok("miri") {
         // depth <= 3 exhaustively for one hasher (the tree builders cast leaf slices with from_raw_parts)
         // (depth 3 exhaustively means 109 600 ordered position lists: hours under Miri)
-        drive::<Blake3_256<B64>>(&run, "Blake3_256", 2, 3);
-        drive::<Rp64_256>(&run, "Rp64_256", 1, 2);
+        drive::<Blake3_256<B64>>(&run, "Blake3_256", 2, 1);
+        drive::<Rp64_256>(&run, "Rp64_256", 1, 1);
         run.finish(Finish {
-            rule: "Miri: every position subset and order for trees of depth <= 2 (Blake3_256) and <= 1 (Rp64_256), a few sampled larger trees each".into(),
+            rule: "Miri: every position subset and order for trees of depth <= 2 (Blake3_256) and <= 1 (Rp64_256), one sampled 32-leaf tree each".into(),
             assumptions: vec!["Miri without the aliasing model".into()],
             exhaustive: true,
             require: vec![],
